@@ -53,6 +53,7 @@ class Opts:
         self.avoid_return_elem = True       # C04/C10: `return m[i][j];` (bare multi-dim element) loses the range check / crashes the caller
         self.extras = False                 # further forms of the sequential core (C01 only): element ++/--, <<= >>=, call statements,
                                             # void functions, narrow result types, static locals, print without newline
+        self.structs = False                # plain structs in main (struct declarations, members as operands / targets, whole-struct copy)
         self.max_stmts = 8
         self.max_depth = 3
         self.expr_depth = 3
@@ -73,6 +74,8 @@ class Gen:
         self.safe_mode = False
         self.rec_funcs = set()
         self.void_funcs = set()   # callable only as statements
+        self.member_arrays = set()   # cells of struct members that are arrays: no compound assignment / ++ / -- on their elements
+                                     # (rejected: "Undefined array: m" / "Invalid array access in increment/decrement" - finding C01-compound-elem-index)
         self.feats = set()
 
     def var(self):
@@ -186,7 +189,7 @@ class Gen:
         r = self.r
         out = []
         env = {"scalars": list(env["scalars"]), "arrays": list(env["arrays"]), "ro": set(env["ro"]),
-               "callable": env.get("callable", []), "calls_ok": env.get("calls_ok", True)}
+               "callable": env.get("callable", []), "calls_ok": env.get("calls_ok", True), "structs": env.get("structs", [])}
         for _ in range(n):
             k = r.random()
             writable = [v for v in env["scalars"] if v[0] not in env["ro"] and (not self.safe_mode or v[1] == "long")]
@@ -245,9 +248,12 @@ class Gen:
                     rhs = self.ret_expr(env, 2, calls=False)
                     if rhs.startswith("(cond"):
                         rhs = "(bin + %s 0)" % rhs
+                elif a[0] in self.member_arrays:
+                    # `s.m[i] = f();` calls f twice (the look-ahead of fix df79998 covers plain arrays only): finding C03-member-elem-call-twice
+                    rhs = self.ret_expr(env, 2, calls=False)
                 else:
                     rhs = self.expr(env, 2)
-                if r.random() < 0.25 and len(a[2]) == 1:
+                if r.random() < 0.25 and len(a[2]) == 1 and a[0] not in self.member_arrays:
                     i0 = str(r.randint(0, a[2][0] - 1))
                     self.feats.add("elem-compound")
                     out.append("(casg %s (idx %d %s) %s)" % (r.choice(["+", "-", "*", "&", "|", "^"]), a[0], i0, rhs))
@@ -258,6 +264,14 @@ class Gen:
                 out.append("(if %s ((ret %s)) ())" % (self.expr(env, 1, calls=False), self.ret_expr(env, 2)))
             elif depth > 0 and r.random() < 0.3:
                 out.append("(block %s)" % " ".join(self.stmts(env, depth - 1, r.randint(1, 2), inloop, infunc)))
+            elif len(env.get("structs", [])) >= 2 and r.random() < 0.5:
+                a = r.choice(env["structs"])
+                same = [b for b in env["structs"] if b[1] == a[1] and b[0] != a[0]]
+                if same:
+                    self.feats.add("struct-copy")
+                    out.append("(copy %d %d %s)" % (a[0], r.choice(same)[0], a[2]))
+                else:
+                    out.append(self.println(env, 1))
             elif self.o.extras and r.random() < 0.8:
                 out.append(self.extra_stmt(env, writable, infunc))
             else:
@@ -269,7 +283,8 @@ class Gen:
         r = self.r
         k = r.random()
         # (++/-- on an element of a multi-dimensional array is rejected: finding C01-compound-elem-index)
-        arrs = [a for a in env["arrays"] if not a[3] and not (self.safe_mode and a[1] != "long") and len(a[2]) == 1]
+        arrs = [a for a in env["arrays"] if not a[3] and not (self.safe_mode and a[1] != "long") and len(a[2]) == 1
+                and a[0] not in self.member_arrays]
         if k < 0.25 and arrs:
             a = r.choice(arrs)
             self.feats.add("elem-incdec")
@@ -418,6 +433,39 @@ class Gen:
         menv = {"scalars": list(genv["scalars"]), "arrays": list(genv["arrays"]), "ro": set(genv["ro"]),
                 "callable": [f[0] for f in self.funcs]}
         main = []
+        sdefs = []
+        if o.structs:
+            # plain structs: member j of struct variable x is the scalar cell 1000 + 8*x + j (Lang.Syntax.mkey), written `(v <cell>)`
+            self.feats.add("struct")
+            for sn in range(1, r.randint(1, 2) + 1):
+                # a member is a scalar `ty` or an array `(ty d ..)`; the first one is a long scalar
+                flds = [("long", [])]
+                for _ in range(r.randint(0, 3)):
+                    t = r.choice(["long", "long", "int", "short", "tiny", "uint"])
+                    dims = [] if r.random() < 0.7 or not o.arrays else [r.randint(1, 3) for _ in range(r.choice([1, 1, 2]))]
+                    flds.append((t if not dims else "long", dims))
+                sdefs.append((sn, flds))
+            fld_s = lambda flds: " ".join(t if not d else "(%s %s)" % (t, " ".join(map(str, d))) for t, d in flds)
+            menv["structs"] = []
+            for _ in range(r.randint(1, 3)):
+                sn, flds = r.choice(sdefs)
+                x = self.var()
+                main.append("(struct %d %d %s)" % (sn, x, fld_s(flds)))
+                menv["structs"].append((x, sn, fld_s(flds)))
+                for j, (t, dims) in enumerate(flds):
+                    cell = 1000 + 8 * x + j
+                    if dims:
+                        menv["arrays"].append((cell, t, dims, False))
+                        self.member_arrays.add(cell)
+                        self.feats.add("struct-array-member")
+                        continue
+                    menv["scalars"].append((cell, t))
+                    if t != "long":
+                        # a store into a narrow member is not range checked (finding C04-struct-member-unchecked): narrow members
+                        # get one in-range literal and are read-only for the generated statements
+                        menv["ro"].add(cell)
+                        lo, hi = RANGES[t]
+                        main.append("(asg (v %d) %d)" % (cell, r.choice([lo, hi, 0, 1, r.randint(lo, hi)])))
         if o.arrays:
             for _ in range(r.randint(0, 2)):
                 x, t, dims, init = self.array_decl(r)
